@@ -24,6 +24,7 @@
 #include <unifex/cancellable.hpp>
 #include <unifex/detail/completion_forwarder.hpp>
 #include <unifex/detail/concept_macros.hpp>
+#include <unifex/detail/verif_hooks.hpp>
 
 #include <optional>
 #include <type_traits>
@@ -301,6 +302,7 @@ public:
   }
 
   void stop() noexcept {
+    UNIFEX_VERIF_YIELD("event.pass.stop_cas");
     auto expected = reinterpret_cast<uintptr_t>(
         static_cast<call_or_throw_op_base<Noexcept>*>(this));
     if (pass_.state_.compare_exchange_strong(
@@ -359,6 +361,7 @@ public:
   }
 
   void stop() noexcept {
+    UNIFEX_VERIF_YIELD("event.pass.stop_cas");
     auto expected = reinterpret_cast<uintptr_t>(
         static_cast<call_or_throw_op_base<false>*>(this));
     if (pass_.state_.compare_exchange_strong(
@@ -485,6 +488,7 @@ public:
   }
 
   void stop() noexcept {
+    UNIFEX_VERIF_YIELD("event.pass.stop_cas");
     auto expected =
         reinterpret_cast<uintptr_t>(static_cast<accept_op_base_noargs*>(this)) |
         async_pass_base::kAcceptorTag;
